@@ -21,7 +21,8 @@ _marshalled_length / _unmarshalled_length) in both encodings, from the IR of the
         the number of elements of the shape
   fq12-io:roundtrip   the 576-byte token used above is justified by running the REAL Fq12/Fq6/Fq2::write/read_big_endian over 48-byte Fq tokens:
         write puts each of the 12 coefficients exactly once into 12 x 48 bytes (injective given Fq::write_big_endian, C02), read(write(a)) = a
-Alignment of the accesses is C17's business: C15 runs with alignment findings recorded, not fatal.
+Alignment findings on the caller's buffer are recorded during the run (not fatal, so the other verdicts are still produced) and reported as
+roundtrip:*:align at the end; C17 reports the same events per function.
 """
 import sys
 import os
@@ -206,8 +207,15 @@ def ob_roundtrip(kname, comp, l, sig):
             raise Violation(key + ":checked-flag", "decode at buffer offset %s is called with checked=%r, the caller asked for %d" % (bad[0][4], bad[0][5], checked), ce)
         if len(decs) != kind.ndec(l, int(sig)):
             raise Violation(key + ":elements", "unmarshal decodes %d elements, the shape has %d" % (len(decs), kind.ndec(l, int(sig))), ce)
+    if I.align_events:
+        # the buffers are void* with no alignment contract: a round trip that the compiler was told happens on an N-aligned buffer is
+        # undefined (and faults on aligned vector moves / on Cortex-M0+) for the other placements of the very same bytes
+        e = I.align_events[0]
+        raise Violation(key + ":align", "%s performs a %d-byte %s with declared alignment %d at %s+%s of the caller's 1-aligned buffer: the round trip "
+                        "is only defined for some placements of the buffer" % (e[0], e[3], "store" if e[5] else "load", e[4], e[1], e[2]),
+                        dict(ce, accesses=[list(map(str, x)) for x in I.align_events[:8]]))
     return W.stats(npaths, [kind.fn("marshal"), kind.fn("unmarshal")] + ([kind.fn("set_length")] if kind.var else []),
-                   "%d bytes, %d elements, %d alignment events (C17)" % (L, len(toks), len(I.align_events)))
+                   "%d bytes, %d elements, no access with a declared alignment above 1 on the buffer" % (L, len(toks)))
 
 
 def ob_reject(kname, comp, l, sig):
@@ -289,7 +297,7 @@ def main(argv=None):
                    "group-element equality is syntactic equality of formal symbols (ground comparison, no solver)", "clang -O1 IR of the current tree, E-IR, z3"]
     chk.assumptions = ["compressed Params: the object satisfies setup's post-condition pairing = e(g2, g1)",
                        "the bytes produced by Encoding::encode are opaque: C15 does not look inside them (C09 does)",
-                       "out of scope: the Go-side marshalling in lang/go/*/marshal.go (no Go toolchain); alignment of the buffer accesses (C17)"]
+                       "out of scope: the Go-side marshalling in lang/go/*/marshal.go (no Go toolchain)"]
     chk.rule = ("one evaluation = one obligation; length:* are solver queries over symbolic l / length / first byte; roundtrip:* combine A-MEM bounds checks, solver queries "
                 "on the index bytes, slot count and flags, and ground comparisons of formal group elements; reject:* are propositional queries over the decode results")
     # lower layers whose specifications this check relies on: their obligations are part of this check's claim (framework.Check.include)
